@@ -358,6 +358,12 @@ class ListGrader(AbstractGrader):
                           "instead of ListGrader"
                     raise ConfigError(msg.format(group_idx, num_items, type(subgrader).__name__))
 
+        # Each list of answers must provide exactly one answer per group
+        for answer_list in self.config['answers']:
+            if len(answer_list) != len(self.grouping):
+                msg = "Grouping indicates {} groups of inputs, but {} answers were provided."
+                raise ConfigError(msg.format(len(self.grouping), len(answer_list)))
+
     @staticmethod
     def ensure_text_inputs(student_input):
         return super(ListGrader, ListGrader).ensure_text_inputs(student_input, allow_single=False)
@@ -471,6 +477,9 @@ class ListGrader(AbstractGrader):
             if len(self.config['grouping']) != len(student_list):
                 msg = "Grouping indicates {} inputs are expected, but only {} inputs exist."
                 raise ConfigError(msg.format(len(self.config['grouping']), len(student_list)))
+            if len(answers) != len(self.grouping):
+                msg = "Grouping indicates {} groups of inputs, but {} answers were provided."
+                raise ConfigError(msg.format(len(self.grouping), len(answers)))
         else:
             if len(answers) != len(student_list):
                 msg = "The number of answers ({}) and the number of inputs ({}) are different"
